@@ -1,6 +1,8 @@
 (* C20: theorems about the model of the error handlers and main()'s error path.
-   `raises` (the exception classes a loader raises on malformed bytes) is a Section variable: every
-   theorem holds for whatever table the fault enumeration establishes. *)
+   In the general lemmas `raises` (the exception classes a loader raises on malformed bytes) is a
+   Section variable; C20_full instantiates it with HandlersSpec.raises_table and discharges the
+   totality hypothesis by computation over the (finite) tables translated from /repo: if a handler
+   of the current source stops covering a tabulated class, this file no longer compiles. *)
 From Coq Require Import String Ascii List Bool ZArith Lia.
 Require Import GT.PyBase GT.HandlersSpec GTgen.HandlersGen GT.HandlersModel.
 Import ListNotations.
@@ -134,8 +136,10 @@ Lemma main_message : forall pos bn m, contains bn m = true ->
     /\ err = render_writes m (me_writes (main_err_of pos)).
 Proof.
   intros pos bn m Hm. pose proof (main_err_ok_pos pos) as H. unfold main_err_ok in H.
-  apply andb_true_iff in H as [H H3]. apply andb_true_iff in H as [H1 H2].
+  apply andb_true_iff in H as [H H3]. apply andb_true_iff in H as [H H2].
+  apply andb_true_iff in H as [H1 H0].
   unfold main_on_error. rewrite H3.
+  destruct (me_stdout (main_err_of pos)) as [|w ws]; [|discriminate]. simpl.
   exists (me_status (main_err_of pos)), (render_writes m (me_writes (main_err_of pos))).
   repeat split.
   - apply negb_true_iff, Z.eqb_neq in H2. exact H2.
@@ -224,52 +228,94 @@ End Raises.
 
 (* ------------------------------------------------------------------ unconditional theorems *)
 
-(* outside the classes of the open findings (HandlersSpec.known_gap) every tabulated loader exception
-   of every text format is covered: a finite table, decided by computation, lifted to all exceptions *)
-Definition partial_table_ok : bool :=
-  forallb (fun ft => forallb (fun c => class_ok ft c || known_gap ft c) (raises_table ft)) text_types.
-
-Lemma partial_table : partial_table_ok = true.
+(* every tabulated loader exception of every text format is covered by the handler translated from
+   the current source: a finite table, decided by computation *)
+Lemma table_total : forallb (handler_total raises_table) text_types = true.
 Proof. vm_compute. reflexivity. Qed.
 
-Theorem C20_partial : forall ft e path pos, In ft text_types -> In (e_class e) (raises_table ft) ->
-  known_gap ft (e_class e) = false -> C20_for ft e path pos.
-Proof.
-  intros ft e path pos Hft Hin Hgap. apply C20_class.
-  pose proof partial_table as H. unfold partial_table_ok in H. rewrite forallb_forall in H.
-  specialize (H ft Hft). rewrite forallb_forall in H. specialize (H _ Hin).
-  rewrite Hgap, orb_false_r in H. exact H.
-Qed.
+(* C20, unconditionally, for the tables translated from the current source *)
+Theorem C20_full : forall ft e path pos, In ft text_types -> In (e_class e) (raises_table ft) ->
+  C20_for ft e path pos.
+Proof. intros ft e path pos Hft Hin. exact (C20_all raises_table table_total ft Hft e path pos Hin). Qed.
 
 Lemma for_reported : forall ft e path pos, C20_for ft e path pos ->
   reported path (main_on_error pos (handler ft path e)) = true.
 Proof. intros ft e path pos (m & st & err & A). apply A. Qed.
 
-(* the YAML handler covers everything its loader raises, on the pinned tree and after the repairs *)
-Example yaml_total : handler_total raises_table "yaml" = true.
-Proof. vm_compute. reflexivity. Qed.
+Corollary C20_full_reported : forall ft e path pos, In ft text_types -> In (e_class e) (raises_table ft) ->
+  reported path (main_on_error pos (handler ft path e)) = true.
+Proof. intros. now apply for_reported, C20_full. Qed.
 
-Theorem C20_yaml : C20_statement raises_table "yaml".
-Proof. apply C20_ft. exact yaml_total. Qed.
+(* no tabulated class is left uncovered *)
+Corollary no_failures : forall ft, In ft text_types -> failures raises_table ft = [].
+Proof.
+  intros ft Hft. apply total_iff_no_failures.
+  pose proof table_total as H. rewrite forallb_forall in H. now apply H.
+Qed.
 
-Lemma yaml_reported : forall e path pos, In (e_class e) (raises_table "yaml") ->
-  reported path (main_on_error pos (handler "yaml" path e)) = true.
-Proof. intros e path pos H. apply for_reported. now apply C20_yaml. Qed.
+(* transfer to observed cases: if the observed loader exception is tabulated and main() did what the
+   model says (corr_C20), the observed outcome satisfies the property (holds_C20) *)
+Lemma result_eqb_eq : forall a b, result_eqb a b = true -> a = b.
+Proof.
+  intros [s o e|c] [s' o' e'|c']; simpl; intros H; try discriminate.
+  - apply andb_true_iff in H as [H H3]. apply andb_true_iff in H as [H1 H2].
+    apply Z.eqb_eq in H1. apply String.eqb_eq in H2. apply String.eqb_eq in H3. now subst.
+  - apply String.eqb_eq in H. now subst.
+Qed.
 
-(* the hypotheses are satisfiable by non-trivial values: a scanner error in the second YAML file, and
-   a JSON syntax error (outside the open classes) in the first *)
+Theorem C20_transfer : forall c, In (c_ft c) text_types -> corr_C20 c = true -> holds_C20 c = true.
+Proof.
+  intros c Hft H. unfold corr_C20 in H. apply andb_true_iff in H as [Hr Hc].
+  unfold in_raises in Hr. unfold corr_outcome, model_result in Hc. unfold holds_C20.
+  destruct (c_exn c) as [e|]; [|discriminate].
+  apply result_eqb_eq in Hc. rewrite <- Hc.
+  apply C20_full_reported; [assumption|].
+  apply existsb_exists in Hr as (k & Hin & Hk). apply String.eqb_eq in Hk. now subst k.
+Qed.
+
+(* the hypotheses are satisfiable by non-trivial values: a scanner error in the second YAML file, a
+   malformed JSON5 file in the first position (D13a before the repair), an IndexError of plistlib
+   caught through its superclass LookupError (D13b), a JSON file that is not UTF-8 (D13c), an unknown
+   declared encoding in an XML file (D13d) *)
 Example C20_witness :
   let e := {| e_class := "yaml.scanner.ScannerError"; e_str := "mapping values are not allowed here";
               e_repr := "ScannerError()"; e_attrs := [] |} in
-  In (e_class e) (raises_table "yaml") /\
+  In "yaml" text_types /\ In (e_class e) (raises_table "yaml") /\
   class_ok "yaml" (e_class e) = true /\
   reported "/tmp/dir/b.yaml" (main_on_error Second (handler "yaml" "/tmp/dir/b.yaml" e)) = true.
 Proof. vm_compute. repeat split; tauto. Qed.
 
-Example C20_partial_witness :
-  let e := {| e_class := "json.decoder.JSONDecodeError"; e_str := ""; e_repr := "";
-              e_attrs := [("msg", ("Expecting value", "'Expecting value'")); ("lineno", ("1", "1"));
-                          ("colno", ("1", "1")); ("pos", ("0", "0"))] |} in
-  In "json" text_types /\ In (e_class e) (raises_table "json") /\ known_gap "json" (e_class e) = false /\
-  reported "a.json" (main_on_error First (handler "json" "a.json" e)) = true.
+Example C20_full_witness :
+  let e5 := {| e_class := "builtins.ValueError"; e_str := "<string>:1 Unexpected ""}"" at column 10";
+               e_repr := "ValueError()"; e_attrs := [] |} in
+  let ep := {| e_class := "builtins.IndexError"; e_str := "list index out of range";
+               e_repr := "IndexError('list index out of range')"; e_attrs := [] |} in
+  let ej := {| e_class := "builtins.UnicodeDecodeError"; e_str := "'utf-8' codec can't decode byte 0xff";
+               e_repr := ""; e_attrs := [("reason", ("invalid start byte", "'invalid start byte'"))] |} in
+  let ex := {| e_class := "builtins.LookupError"; e_str := "unknown encoding: TF-8";
+               e_repr := ""; e_attrs := [] |} in
+  (In "json5" text_types /\ In (e_class e5) (raises_table "json5") /\
+   main_on_error First (handler "json5" "d/a.json5" e5)
+   = Exit 1 "" "Error parsing a.json5: <string>:1 Unexpected ""}"" at column 10
+
+")
+  /\ (In "plist" text_types /\ In (e_class ep) (raises_table "plist") /\
+      reported "b.plist" (main_on_error Second (handler "plist" "b.plist" ep)) = true)
+  /\ (In (e_class ej) (raises_table "json") /\
+      reported "x/c.json" (main_on_error Second (handler "json" "x/c.json" ej)) = true)
+  /\ (In (e_class ex) (raises_table "xml") /\ In (e_class ex) (raises_table "html") /\
+      reported "c.xml" (main_on_error First (handler "xml" "c.xml" ex)) = true /\
+      reported "c.html" (main_on_error Second (handler "html" "c.html" ex)) = true).
+Proof. vm_compute. repeat split; tauto. Qed.
+
+(* corr_C20 is satisfiable: the observed record of a run on a truncated JSON file *)
+Example C20_transfer_witness :
+  let c := {| c_ft := "json"; c_pos := First; c_path := "/w/a_bad.json";
+              c_exn := Some {| e_class := "json.decoder.JSONDecodeError"; e_str := ""; e_repr := "";
+                               e_attrs := [("msg", ("Expecting value", "'Expecting value'"));
+                                           ("lineno", ("1", "1")); ("colno", ("2", "2")); ("pos", ("1", "1"))] |};
+              c_out := Exit 1 "" "Error parsing a_bad.json: Expecting value: line 1, column 2 (char 1)
+
+" |} in
+  In (c_ft c) text_types /\ corr_C20 c = true /\ holds_C20 c = true.
 Proof. vm_compute. repeat split; tauto. Qed.
